@@ -86,13 +86,17 @@ def run_history(c, tmp, idx):
         if defaults_kind == "b-only" and (combos is None or "a" not in combos):
             combos = dict(combos or {})
             combos["a"] = list(CHOICES["a"])
+        # a constant given for this run only (overrides the runner's own)
+        run_k = 5 if (use_const and rng.random() < 0.3) else (2 if use_const else 0)
+        kc = {"constants": {"k": run_k}} if run_k == 5 else {}
+        ke = {"engine": engine} if rng.random() < 0.3 else {}
         rep = {"engine": engine, "const": use_const, "steps": steps, "default_combos": defaults_kind}
         steps.append([kind, who, n, "override" if combos else "default"])
         try:
             if kind == "sample":
                 np.random.seed(rng.randint(0, 10 ** 6))
                 opts = {"shuffle": rng.choice([False, True, 3])} if rng.random() < 0.3 else {}
-                last = ss[who].sample_combos(n, combos=combos, verbosity=0, **opts)
+                last = ss[who].sample_combos(n, combos=combos, verbosity=0, **opts, **kc, **ke)
             elif kind == "sample_fail":
                 # a run whose table write fails: before the temporary file exists (save_df raises) or at the
                 # os.replace; the run raises, nothing is appended anywhere
@@ -137,7 +141,7 @@ def run_history(c, tmp, idx):
             elif kind == "crop":
                 np.random.seed(rng.randint(0, 10 ** 6))
                 crop = ss[who].Crop(name=f"c{step}", parent_dir=d, batchsize=rng.randint(1, 3))
-                crop.sow_samples(n, combos=combos, verbosity=0)
+                crop.sow_samples(n, combos=combos, verbosity=0, **kc)
                 crop.grow_missing(verbosity=0)
                 last = crop.reap()
             else:
@@ -161,8 +165,10 @@ def run_history(c, tmp, idx):
                 out = row[-1]
                 if a not in allowed["a"] or b not in allowed["b"]:
                     c.violation("draw-outside-choices", f"row {row}", rep)
-                if out != fn(a, b, 2 if use_const else 0):
-                    c.violation("row-output-wrong", f"row {row}: the function gives {fn(a, b, 2 if use_const else 0)}", rep)
+                if out != fn(a, b, run_k):
+                    c.violation("row-output-wrong", f"row {row}: the function gives {fn(a, b, run_k)}", rep)
+                if use_const and row[2] != run_k:
+                    c.violation("row-constant-wrong", f"row {row}: this run's constant k was {run_k}", rep)
             if canon_df(ss[who]._full_df) != after:
                 c.violation("memory-differs-from-disk", "full_df differs from the table on disk after the run", rep)
             coq_rows = "[" + "; ".join(core.zlist(r) for r in rows) + "]"
